@@ -139,11 +139,24 @@ func c13Run(c *Ctx, idx int) {
 	n = len(keys)
 	recs := &ref.Arr{E: make([]ref.V, n)}
 	plain := &ref.Arr{E: make([]ref.V, n)}
+	var hiKey ref.V
+	for _, k := range keys {
+		if hiKey == nil || cmpKeys(k, hiKey) > 0 {
+			hiKey = k
+		}
+	}
 	for i, k := range keys {
 		o := ref.NewObj()
 		o.Set("id", gen.IntV(int64(i)))
 		o.Set("k", k)
 		o.Set("n", &ref.Arr{E: []ref.V{k}})
+		// a small inner array whose least key is k (hi = the largest key overall):
+		// key expressions that sort / select inside the key expression re-enter
+		// the sorting routines while the outer call holds its keys
+		mo1, mo2 := ref.NewObj(), ref.NewObj()
+		mo1.Set("v", hiKey)
+		mo2.Set("v", k)
+		o.Set("m", &ref.Arr{E: []ref.V{mo1, mo2}})
 		recs.E[i] = o
 		plain.E[i] = k
 	}
@@ -222,7 +235,11 @@ func c13Run(c *Ctx, idx int) {
 	}
 
 	// sort_by with a plain key and with a computed key
-	for _, text := range []string{"sort_by(rs, &k)", "sort_by(rs, &n[0])", "let $z = `0` in sort_by(rs, &not_null(n[1], k, $z))"} {
+	sortTexts := []string{"sort_by(rs, &k)", "sort_by(rs, &n[0])", "let $z = `0` in sort_by(rs, &not_null(n[1], k, $z))"}
+	if n <= 1000 {
+		sortTexts = append(sortTexts, "sort_by(rs, &sort_by(m, &v)[0].v)", "sort_by(rs, &min_by(m, &v).v)", "sort_by(rs, &sort(m[*].v)[0])", "sort_by(rs, &min(n))", "sort_by(rs, &sort_by([@, @], &k)[1].k)", "sort_by(rs, &map(&v, m)[1])")
+	}
+	for _, text := range sortTexts {
 		out, ok := getRecs(text)
 		if !ok {
 			continue
@@ -297,7 +314,7 @@ func c13Run(c *Ctx, idx int) {
 			text string
 			want ref.V
 			by   bool
-		}{{"min(xs)", lo, false}, {"max(xs)", hi, false}, {"min_by(rs, &k)", lo, true}, {"max_by(rs, &k)", hi, true}} {
+		}{{"min(xs)", lo, false}, {"max(xs)", hi, false}, {"min_by(rs, &k)", lo, true}, {"max_by(rs, &k)", hi, true}, {"min_by(rs, &sort_by(m, &v)[0].v)", lo, true}, {"max_by(rs, &min_by(m, &v).v)", hi, true}, {"max_by(rs, &max_by([@, @], &k).k)", hi, true}} {
 			l := c.LibSearch(t.text, goDoc)
 			if l.Err != nil || l.Panic != nil || l.MErr != nil {
 				c.Report(Violation{Rule: "C13/unexpected-failure", Expr: t.text, Data: clipS(before, 600), Got: ShowOut(l), Features: feats})
